@@ -290,6 +290,835 @@ def make_op2(rng, t):
     return {"op": "sliceNth", "i": i}, lambda x: list(x.slices.values())[i]
 
 
+# ---- (vi) chains over Op3 (Model/AllOps2.lean; driver request "chain3") ---------------------------
+# Callables are EXPRESSION TREES (tuples): `ex_wire` sends the tree to the Lean model (`Fn.Ex`), `ex_py`
+# compiles the same tree to a Python lambda handed to the implementation.
+
+import operator as _operator
+
+_BINOPS = {"+": _operator.add, "-": _operator.sub, "*": _operator.mul, "/": _operator.truediv,
+           "//": _operator.floordiv, "%": _operator.mod, "<": _operator.lt, "<=": _operator.le,
+           ">": _operator.gt, ">=": _operator.ge, "==": _operator.eq, "!=": _operator.ne}
+
+
+def pv_wire(v):
+    if v is None or isinstance(v, bool):
+        return v
+    if isinstance(v, int):
+        return ["i", v]
+    if isinstance(v, float):
+        return ["f", common.w_rat(v)]
+    if isinstance(v, str):
+        return ["s", v]
+    if isinstance(v, datetime.date):
+        return ["d", w_date(v)]
+    raise common.Infra(f"unsupported constant {v!r}")
+
+
+def ex_wire(ex):
+    tag = ex[0]
+    if tag == "c":
+        return ["c", pv_wire(ex[1])]
+    if tag in ("detget", "fget"):
+        return [tag, ex[1], pv_wire(ex[2])]
+    return [tag] + [ex_wire(a) if isinstance(a, tuple) else a for a in ex[1:]]
+
+
+def ex_py(ex):
+    """the Python lambda the expression tree stands for"""
+    from bermuda.date_utils import add_months
+    tag = ex[0]
+    if tag == "c":
+        v = ex[1]
+        return lambda c: v
+    if tag == "ps":
+        return lambda c: c.period_start
+    if tag == "pe":
+        return lambda c: c.period_end
+    if tag == "ev":
+        return lambda c: c.evaluation_date
+    if tag == "prev":
+        return lambda c: c.prev_evaluation_date
+    if tag == "m":
+        name = ex[1]
+        return (lambda c: getattr(c.metadata, name)) if len(name) % 2 else (lambda c: getattr(c, name))
+    if tag == "det":
+        k = ex[1]
+        return lambda c: c.details[k]
+    if tag == "detget":
+        k, d = ex[1], ex[2]
+        return lambda c: c.metadata.details.get(k, d)
+    if tag == "ldet":
+        k = ex[1]
+        return lambda c: c.loss_details[k]
+    if tag == "f":
+        k = ex[1]
+        return lambda c: c[k]
+    if tag == "fget":
+        k, d = ex[1], ex[2]
+        return lambda c: c.values.get(k, d)
+    if tag == "has":
+        k = ex[1]
+        return lambda c: k in c
+    if tag in ("year", "month", "day"):
+        f = ex_py(ex[1])
+        return lambda c: getattr(f(c), tag)
+    if tag == "adddays":
+        a, n = ex_py(ex[1]), ex_py(ex[2])
+        return lambda c: a(c) + datetime.timedelta(days=n(c))
+    if tag == "addmonths":
+        a, n = ex_py(ex[1]), ex_py(ex[2])
+        return lambda c: add_months(a(c), n(c))
+    if tag == "daysbetween":
+        a, b = ex_py(ex[1]), ex_py(ex[2])
+        return lambda c: (a(c) - b(c)).days
+    if tag == "devlag":
+        return lambda c: c.dev_lag()
+    if tag == "plen":
+        return lambda c: c.period_length
+    if tag == "isnone":
+        a = ex_py(ex[1])
+        return lambda c: a(c) is None
+    if tag == "not":
+        a = ex_py(ex[1])
+        return lambda c: not a(c)
+    if tag == "neg":
+        a = ex_py(ex[1])
+        return lambda c: -a(c)
+    if tag == "bin":
+        op, a, b = ex[1], ex_py(ex[2]), ex_py(ex[3])
+        if op == "and":
+            return lambda c: a(c) and b(c)
+        if op == "or":
+            return lambda c: a(c) or b(c)
+        f = _BINOPS[op]
+        return lambda c: f(a(c), b(c))
+    if tag == "if":
+        g, a, b = ex_py(ex[1]), ex_py(ex[2]), ex_py(ex[3])
+        return lambda c: a(c) if g(c) else b(c)
+    raise ValueError(tag)
+
+
+def _is_month_end(d):
+    return (d + datetime.timedelta(days=1)).day == 1
+
+
+class Env:
+    """what the expression generators may rely on in the CURRENT triangle (so that IEEE arithmetic stays
+    exact and metadata values under one key stay mutually comparable)"""
+
+    def __init__(self, t):
+        import numpy as np
+        cells = t.cells
+        self.n = len(cells)
+        self.inc = bool(cells) and hasattr(cells[0], "prev_evaluation_date")
+        kinds = {}
+        for c in cells:
+            for k, v in c.values.items():
+                if isinstance(v, (bool, np.bool_)):
+                    kd = "other"
+                elif isinstance(v, (int, np.integer)) and abs(int(v)) < (1 << 24):
+                    kd = "int"
+                elif isinstance(v, (float, np.floating)) and float(v) == float(v) and abs(float(v)) < (1 << 20) \
+                        and float(v) * 64 == int(float(v) * 64):
+                    kd = "float"
+                else:
+                    kd = "other"
+                kinds.setdefault(k, set()).add(kd)
+        everywhere = lambda k: all(k in c.values for c in cells)  # noqa: E731
+        self.fields = sorted(kinds)
+        self.int_fields = [k for k in self.fields if kinds[k] == {"int"} and everywhere(k)]
+        self.float_fields = [k for k in self.fields if kinds[k] == {"float"} and everywhere(k)]
+        dk = {}
+        for c in cells:
+            for k, v in c.metadata.details.items():
+                dk.setdefault(k, set()).add(type(v).__name__)
+        self.str_details = [k for k in sorted(dk) if dk[k] == {"str"} and all(k in c.metadata.details for c in cells)]
+        self.aligned = all(c.period_start.day == 1 and _is_month_end(c.period_end) and _is_month_end(c.evaluation_date)
+                           and (not self.inc or _is_month_end(c.prev_evaluation_date)) for c in cells)
+        self.dates = sorted({c.evaluation_date for c in cells} | {c.period_start for c in cells}
+                            | {c.period_end for c in cells}) or [datetime.date(2020, 1, 1)]
+
+
+def g_date(rng, env, d=2):
+    opts = ["ps", "pe", "ev", "const"] + (["prev"] if env.inc else [])
+    if d > 0:
+        opts += ["adddays", "adddays", "ite"] + (["addmonths"] if env.aligned else [])
+    k = rng.choice(opts)
+    if k in ("ps", "pe", "ev", "prev"):
+        return (k,)
+    if k == "const":
+        return ("c", rng.choice(env.dates) + datetime.timedelta(days=rng.choice([0, 0, 1, -1, 400])))
+    if k == "adddays":
+        return ("adddays", g_date(rng, env, d - 1), ("c", rng.choice([0, 1, -1, 30, 40, 365, -400, 4000])))
+    if k == "addmonths":
+        return ("addmonths", (rng.choice(["ps", "pe", "ev"]),), ("c", rng.choice([0, 1, -1, 3, 12, -14, 2.0])))
+    return ("if", g_bool(rng, env, d - 1), g_date(rng, env, d - 1), g_date(rng, env, d - 1))
+
+
+def g_int(rng, env, d=2):
+    opts = ["const", "part", "plen"] + (["field", "field"] if env.int_fields else [])
+    if d > 0:
+        opts += ["bin", "bin", "ite", "days", "neg"]
+    k = rng.choice(opts)
+    if k == "const":
+        return ("c", rng.choice([0, 1, 2, 3, 5, 12, -1, 100, True]))
+    if k == "part":
+        return (rng.choice(["year", "month", "day"]), g_date(rng, env, d - 1))
+    if k == "plen":
+        return ("plen",)
+    if k == "field":
+        return ("f", rng.choice(env.int_fields))
+    if k == "days":
+        return ("daysbetween", g_date(rng, env, d - 1), g_date(rng, env, d - 1))
+    if k == "neg":
+        return ("neg", g_int(rng, env, d - 1))
+    if k == "ite":
+        return ("if", g_bool(rng, env, d - 1), g_int(rng, env, d - 1), g_int(rng, env, d - 1))
+    op = rng.choice(["+", "-", "*", "//", "%"])
+    b = ("c", rng.choice([2, 3, 7, -2, -5])) if op in ("//", "%") else g_int(rng, env, d - 1)
+    return ("bin", op, g_int(rng, env, d - 1), b)
+
+
+def g_float(rng, env, d=2):
+    opts = ["const"] + (["field", "field"] if env.float_fields else []) + (["devlag"] if env.aligned else [])
+    if d > 0:
+        opts += ["half", "addint", "scale", "ite"]
+    k = rng.choice(opts)
+    if k == "const":
+        return ("c", rng.choice([0.5, 2.25, 1.0, -3.75]))
+    if k == "field":
+        return ("f", rng.choice(env.float_fields))
+    if k == "devlag":
+        return ("devlag",)
+    if k == "half":
+        return ("bin", "/", rng.choice([g_float, g_int])(rng, env, 0), ("c", rng.choice([2, 4, 8, 0.5])))
+    if k == "addint":
+        return ("bin", rng.choice(["+", "-"]), g_float(rng, env, d - 1), rng.choice([g_float, g_int])(rng, env, 0))
+    if k == "scale":
+        return ("bin", "*", g_float(rng, env, 0), ("c", rng.choice([2, 3, 0.5, -1.5])))
+    return ("if", g_bool(rng, env, d - 1), g_float(rng, env, d - 1), g_float(rng, env, d - 1))
+
+
+_STRS = ["A", "Z", "", "mid", "Üb"]
+
+
+def g_str(rng, env, d=2):
+    opts = ["const", "const", "attr_or"] + (["det"] if env.str_details else [])
+    if d > 0:
+        opts += ["cat", "ite"]
+    k = rng.choice(opts)
+    if k == "const":
+        return ("c", rng.choice(_STRS))
+    if k == "attr_or":
+        return ("bin", "or", ("m", rng.choice(["country", "currency", "reinsurance_basis", "loss_definition", "risk_basis"])),
+                ("c", rng.choice(_STRS)))
+    if k == "det":
+        return rng.choice([("det", rng.choice(env.str_details)), ("detget", rng.choice(env.str_details), "dflt")])
+    if k == "cat":
+        return ("bin", "+", g_str(rng, env, d - 1), g_str(rng, env, d - 1))
+    return ("if", g_bool(rng, env, d - 1), g_str(rng, env, d - 1), g_str(rng, env, d - 1))
+
+
+def g_bool(rng, env, d=2):
+    opts = ["cmpi", "cmpd", "has", "isnone", "const"] + (["cmpf"] if env.float_fields else [])
+    if d > 0:
+        opts += ["not", "andor", "cmps"]
+    k = rng.choice(opts)
+    cmp_ = rng.choice(["<", "<=", ">", ">=", "==", "!="])
+    if k == "cmpi":
+        return ("bin", cmp_, g_int(rng, env, d - 1), rng.choice([g_int, g_float])(rng, env, max(d - 1, 0)))
+    if k == "cmpf":
+        return ("bin", cmp_, g_float(rng, env, d - 1), g_float(rng, env, max(d - 1, 0)))
+    if k == "cmpd":
+        return ("bin", cmp_, g_date(rng, env, d - 1), g_date(rng, env, d - 1))
+    if k == "cmps":
+        return ("bin", cmp_, g_str(rng, env, d - 1), g_str(rng, env, d - 1))
+    if k == "has":
+        return ("has", rng.choice(env.fields + ["nope"]))
+    if k == "isnone":
+        return ("isnone", ("m", rng.choice(["country", "currency", "per_occurrence_limit"])))
+    if k == "const":
+        return ("c", rng.choice([True, False]))
+    if k == "not":
+        return ("not", g_bool(rng, env, d - 1))
+    return ("bin", rng.choice(["and", "or"]), g_bool(rng, env, d - 1), g_bool(rng, env, d - 1))
+
+
+def g_bad(rng, env):
+    """ill-typed / failing bodies: both sides must raise"""
+    return rng.choice([
+        ("bin", "+", ("c", 1), ("c", "x")), ("bin", "<", ("c", None), ("c", 1)), ("f", "no_such_field"),
+        ("year", ("c", 3)), ("det", "no_such_key"), ("bin", "//", ("c", 1), ("c", 0)), ("neg", ("c", "s")),
+        ("adddays", ("ps",), ("c", 10 ** 8)), ("bin", "<", ("ps",), ("c", 3)), ("bin", "-", ("c", "a"), ("c", "b")),
+    ])
+
+
+def _set_operand(t, rng):
+    """same class (or, rarely, the Cell / CumulativeCell sibling class): some of t's cells unchanged (equal under
+    `==`), some with other values, some moved to coordinates t does not have"""
+    from bermuda import Cell as _Cell, CumulativeCell as _Cum
+    cells = []
+    for c in t.cells:
+        u = rng.random()
+        if u < 0.4:
+            cells.append(c if rng.random() < 0.5 else c.replace(values=dict(reversed(list(c.values.items())))))
+        elif u < 0.6:
+            cells.append(c.replace(values={k: (v + 1 if isinstance(v, (int, float)) else v) for k, v in c.values.items()}))
+        elif u < 0.75:
+            cells.append(c.replace(evaluation_date=c.evaluation_date + datetime.timedelta(days=rng.choice([1, 400]))))
+    if cells and type(cells[0]) in (_Cell, _Cum) and rng.random() < 0.15:
+        other = _Cum if type(cells[0]) is _Cell else _Cell
+        cells = [other(c.period_start, c.period_end, c.evaluation_date, c.values, c.metadata) for c in cells]
+    return Triangle(cells)
+
+
+def _shift_cells(cells, k):
+    out = []
+    for c in cells:
+        kw = dict(period_start=gen.add_months_int(c.period_start, k), period_end=gen.add_months_int(c.period_end, k, end=True),
+                  evaluation_date=gen.add_months_int(c.evaluation_date, k, end=True))
+        if hasattr(c, "prev_evaluation_date"):
+            kw["prev_evaluation_date"] = gen.add_months_int(c.prev_evaluation_date, k, end=True)
+        out.append(c.replace(**kw))
+    return out
+
+
+OPS3 = ["deriveFields", "deriveFields", "deriveMetadataFn", "deriveMetadataFn", "replaceFn", "replaceFn", "filterFn",
+        "union", "inter", "diff", "symdiff", "sum", "cellAt", "loosePeriodMerge", "loosePeriodMerge", "shiftOrigin",
+        "weightGeometricDecay", "weightGeometricDecay", "paidBs", "reportedBs", "addStaticsDefault",
+        "wideRoundTrip", "longRoundTrip", "matrixRoundTrip", "arrayRoundTrip",
+        "dropOffDiagonals", "toSlice", "sliceToTriangle", "makePredTriangleWithInit", "makePredTriangleWithInit",
+        "disaggDev", "disaggDev", "disagg"]
+READER_OPS = ("wideRoundTrip", "longRoundTrip", "matrixRoundTrip", "arrayRoundTrip")
+
+
+def _csv_safe(t, scalar_only=False):
+    """inside the domain of the row model of the tabular forms (Model/Frame.lean, property C14): no empty
+    strings (a CSV reads them as missing), detail values plain str / int / float, no key both in details and
+    loss_details, slices still distinct once loss details are merged into details (long CSV), every cell has
+    values, values are numbers or sample vectors of one length, no duplicate coordinates"""
+    import numpy as np
+    import dataclasses as _dc
+    if len(t) == 0 or _has_dups(t):
+        return False
+    merged = set()
+    for m in t.metadata:
+        for a in ("risk_basis", "country", "currency", "reinsurance_basis", "loss_definition"):
+            v = getattr(m, a)
+            if v is not None and (not isinstance(v, str) or not v.strip() or v != v.strip()):
+                return False
+        if m.risk_basis is None or set(m.details) & set(m.loss_details):
+            return False
+        if m.per_occurrence_limit is not None and float(m.per_occurrence_limit) * 64 != int(float(m.per_occurrence_limit) * 64):
+            return False
+        for d in (m.details, m.loss_details):
+            for k, v in d.items():
+                if isinstance(v, bool) or not isinstance(v, (str, int, float)):
+                    return False
+                if not isinstance(v, str) and float(v) * 64 != int(float(v) * 64):
+                    return False
+                if isinstance(v, str) and (not v.strip() or v != v.strip() or v.lower() in ("nan", "none", "null", "na", "true", "false")):
+                    return False
+                if isinstance(v, str):
+                    try:
+                        float(v)
+                        return False
+                    except ValueError:
+                        pass
+        merged.add(_dc.replace(m, details={**m.details, **m.loss_details}, loss_details={}))
+    if len(merged) != len(t.metadata):
+        return False
+    sizes = set()
+    if len({tuple(sorted(c.values)) for c in t.cells}) != 1:
+        return False            # every cell the same fields (a missing sample field comes back as an object array of None)
+    for c in t.cells:
+        if not c.values:
+            return False
+        for v in c.values.values():
+            if isinstance(v, (bool, np.bool_)) or v is None:
+                return False
+            # pandas' default CSV float parser is not round-trip exact: only short dyadic numbers
+            short = lambda x: x == x and abs(x) < (1 << 30) and x * 64 == int(x * 64)  # noqa: E731
+            if isinstance(v, np.ndarray):
+                if scalar_only or v.ndim != 1 or v.size < 2 or v.dtype.kind != "f":
+                    return False
+                if not all(short(float(x)) for x in v):
+                    return False
+                sizes.add(v.size)
+            elif not isinstance(v, (int, float, np.integer, np.floating)):
+                return False
+            elif not short(float(v)):
+                return False
+    return len(sizes) <= 1
+
+
+def numcanon(cells_wire):
+    """kind-insensitive form of a dump (array data frames give numbers back as floats or 0-d arrays)"""
+    out = []
+    for c in cells_wire:
+        d = dict(c)
+        vs = []
+        for k_, v in sorted(d["v"], key=lambda kv: kv[0]):
+            if v is None:
+                nv = None
+            elif v[0] in ("i", "f"):
+                nv = ["s", str(v[1])]
+            elif len(v[3]) == 1:
+                nv = ["s", v[3][0]]
+            else:
+                nv = ["v", list(v[3])]
+            vs.append([k_, nv])
+        d["v"] = vs
+        if d["k"] == "C":
+            d["k"] = "U"
+        out.append(d)
+    return out
+
+
+def _key_cell(c):
+    d = w_cell(c)
+    d["v"] = []
+    return d
+
+
+def _table(cells, field):
+    """[[cell key, value], ...]: the numbers the implementation computed, by coordinate (raises on NaN/inf)"""
+    return [[_key_cell(c), common.w_val(c.values[field])] for c in cells if field in c.values]
+
+
+def _inexact(t):
+    """some number in the triangle is not a short dyadic rational: float arithmetic on it would round, so later
+    operations that ADD or SUBTRACT values (to_incremental, aggregate, ...) are no longer comparable exactly"""
+    import numpy as np
+    for c in t.cells:
+        for v in c.values.values():
+            if v is None:
+                continue
+            for x in (np.asarray(v, dtype=float).reshape(-1).tolist()):
+                if x != x or abs(x) >= (1 << 30) or x * 64 != int(x * 64):
+                    return True
+    return False
+
+
+# operations that never do arithmetic on existing values in the model (copy / select / reorder / opaque numbers)
+OPS3_VALUE_NEUTRAL = ["deriveFields", "deriveMetadataFn", "replaceFn", "filterFn", "union", "inter", "diff", "symdiff", "sum",
+                      "cellAt", "loosePeriodMerge", "shiftOrigin", "toSlice", "sliceToTriangle", "dropOffDiagonals",
+                      "weightGeometricDecay", "disaggDev"]
+
+
+def _has_dups(t):
+    cs = t.cells
+    return any(a.metadata == b.metadata and a.coordinates[:3] == b.coordinates[:3] for a, b in zip(cs[:-1], cs[1:]))
+
+
+def _bs_cells(rng):
+    """a small regular triangle with the fields the Berquist-Sherman adjusters read (positive integers)"""
+    rows = gen.layout_regular(rng, res=rng.choice([3, 12]), n_periods=rng.randrange(1, 4), n_lags=rng.randrange(1, 4),
+                              shape=rng.choice(["square", "triangle", "ragged"]))
+    kind = rng.choice(["C", "U", "I"])
+    cells = []
+    for m in gen.rand_metas(rng, rng.choice([1, 2])):
+        for c in gen.cells_from_layout(rng, rows, m, kind=kind, fields=["paid_loss"]):
+            paid = rng.randrange(1, 500)
+            cells.append(c.replace(values={"paid_loss": paid, "reported_loss": paid + rng.randrange(1, 300),
+                                           "cwp_claims": rng.randrange(1, 60), "open_claims": rng.randrange(1, 40)}))
+    rng.shuffle(cells)
+    return cells
+
+
+def _ult_for(t, rng):
+    """ultimate claim counts per period (right edge), in the class `period_merge` will meet after `to_cumulative`"""
+    from bermuda import CumulativeCell as _Cum
+    out = []
+    as_cum = rng.random() < 0.9
+    for c in t.right_edge.cells:
+        vals = {"reported_claims": rng.randrange(1, 900)}
+        if hasattr(c, "prev_evaluation_date") and as_cum:
+            out.append(_Cum(c.period_start, c.period_end, c.evaluation_date, vals, c.metadata))
+        else:
+            out.append(c.replace(values=vals))
+    if rng.random() < 0.15:
+        out = out[1:]
+    return Triangle(out)
+_TOP_STR = ["risk_basis", "country", "currency", "reinsurance_basis", "loss_definition"]
+
+
+def _const_or_fn(rng, ex):
+    """a constant definition is passed as the plain value half of the time (`callable(func_or_val)` is false)"""
+    if ex[0] == "c" and rng.random() < 0.5:
+        return ex[1]
+    return ex_py(ex)
+
+
+def make_op3(rng, t, k=None):
+    """(wire op, function applying it to the implementation) for the current triangle"""
+    env = Env(t)
+    k = k or rng.choice(OPS3)
+    bad = rng.random() < 0.06
+    if k == "deriveFields":
+        defs = {}
+        for _ in range(rng.randrange(1, 4)):
+            name = rng.choice(["z", "w", "ratio"] + env.fields[:2])
+            kind = rng.choice(["int", "int", "float", "flag", "copy", "none"])
+            if kind == "int":
+                ex = g_int(rng, env)
+                env.int_fields = sorted(set(env.int_fields) | {name}) if env.n else env.int_fields
+                env.float_fields = [f for f in env.float_fields if f != name]
+            elif kind == "float":
+                ex = g_float(rng, env)
+                env.int_fields = [f for f in env.int_fields if f != name]
+                env.float_fields = [f for f in env.float_fields if f != name]
+            elif kind == "flag":
+                ex = rng.choice([g_bool(rng, env), ("if", g_bool(rng, env), ("c", 1), ("c", 0))])
+                if ex[0] != "if" and (env.float_fields or env.int_fields):
+                    ex = ("if", ex, ("c", True), ("c", False))   # a numpy bool is not a CellValue: go through constants
+                env.int_fields = [f for f in env.int_fields if f != name]
+                env.float_fields = [f for f in env.float_fields if f != name]
+            elif kind == "copy" and env.fields:
+                ex = rng.choice([("f", rng.choice(env.fields)), ("fget", rng.choice(env.fields + ["nope"]), rng.choice([None, 0, 1.5]))])
+                env.int_fields = [f for f in env.int_fields if f != name]
+                env.float_fields = [f for f in env.float_fields if f != name]
+            else:
+                ex = ("c", rng.choice([None, 7, 2.5]))
+                env.int_fields = [f for f in env.int_fields if f != name]
+                env.float_fields = [f for f in env.float_fields if f != name]
+            if bad:
+                ex = rng.choice([g_bad(rng, env), g_str(rng, env), g_date(rng, env)])
+            defs[name] = ex
+        kw = {n: _const_or_fn(rng, e) for n, e in defs.items()}
+        return ({"op": k, "defs": [[n, ex_wire(e)] for n, e in defs.items()]}, lambda x: x.derive_fields(**kw))
+    if k == "deriveMetadataFn":
+        defs = {}
+        for _ in range(rng.randrange(1, 3)):
+            name = rng.choice(_TOP_STR + ["per_occurrence_limit", "grp", "zz_tag", "coverage", "aa"])
+            if name in _TOP_STR:
+                ex = rng.choice([g_str(rng, env), g_str(rng, env), ("c", None)])
+                if name == "risk_basis" and ex == ("c", None) and rng.random() < 0.5:
+                    ex = ("c", "Policy")
+                wrong = rng.choice([g_int(rng, env), g_date(rng, env)])
+            elif name == "per_occurrence_limit":
+                ex = rng.choice([("c", None), ("c", 250000), g_float(rng, env, 1),
+                                 ("if", g_bool(rng, env, 1), ("c", 100), ("c", 2.5))])
+                if (env.int_fields or env.float_fields) and ex[0] not in ("c", "if"):
+                    ex = ("c", 7.5)
+                wrong = g_str(rng, env)
+            else:
+                ex = rng.choice([g_str(rng, env), ("if", g_bool(rng, env), ("c", 1), ("c", 0)),
+                                 ("bin", "%", (rng.choice(["year", "month"]), g_date(rng, env, 1)), ("c", rng.choice([2, 3]))),
+                                 g_date(rng, env, 1)])
+                wrong = g_bad(rng, env)
+                if name in env.str_details:
+                    env.str_details = [s_ for s_ in env.str_details if s_ != name]
+            defs[name] = wrong if bad else ex
+        if bad and rng.random() < 0.3:
+            defs = {rng.choice(["details", "loss_details"]): ("c", 3)}
+        kw = {n: _const_or_fn(rng, e) for n, e in defs.items()}
+        return ({"op": k, "defs": [[n, ex_wire(e)] for n, e in defs.items()]}, lambda x: x.derive_metadata(**kw))
+    if k == "replaceFn":
+        names = rng.sample(["period_start", "period_end", "evaluation_date", "prev_evaluation_date", "values", "metadata"],
+                           rng.randrange(1, 4))
+        if not env.inc and rng.random() < 0.85:
+            names = [n for n in names if n != "prev_evaluation_date"] or ["period_end"]
+        wire, kw = [], {}
+        if len(names) > 1:
+            env.aligned = False     # later definitions see dates already replaced: no float month arithmetic on them
+        if rng.random() < 0.3:
+            env.aligned = False
+            # later definitions read what earlier ones replaced (order = keyword order)
+            k1, k2, k3 = rng.choice([3, 40, 400]), rng.choice([0, 5, 50]), rng.choice([0, 1, 30])
+            dep = [("period_start", ("adddays", ("ps",), ("c", k1))), ("period_end", ("adddays", ("ps",), ("c", k2))),
+                   ("evaluation_date", ("adddays", rng.choice([("pe",), ("ps",)]), ("c", k3)))]
+            if env.inc:
+                dep.append(("prev_evaluation_date", ("adddays", ("ev",), ("c", rng.choice([-1, -10, 0])))))
+            if rng.random() < 0.5:
+                dep.append(("values", None))
+            names = []
+            for name, ex in dep:
+                if ex is None:
+                    names.append(name)
+                    continue
+                kw[name] = ex_py(ex)
+                wire.append({"name": name, "e": ex_wire(ex)})
+        for name in names:
+            if name == "values":
+                spread = rng.random() < 0.6
+                items = [(rng.choice(["z", "w"] + env.fields[:2]), rng.choice([g_int, g_float, g_int])(rng, env, 1))
+                         for _ in range(rng.randrange(0, 3))]
+                if bad:
+                    items.append(("q", g_str(rng, env)))
+                fns = [(n, ex_py(e)) for n, e in items]
+                kw[name] = (lambda c, fns=fns: {**c.values, **{n: f(c) for n, f in fns}}) if spread else \
+                    (lambda c, fns=fns: {n: f(c) for n, f in fns})
+                wire.append({"name": name, "spread": spread, "items": [[n, ex_wire(e)] for n, e in items]})
+            elif name == "metadata":
+                m = rng.choice(gen.rand_metas(rng, 2))
+                kw[name] = m
+                wire.append({"name": name, "m": w_meta(m)})
+            else:
+                if name == "period_start":
+                    ex = rng.choice([("adddays", ("ps",), ("c", rng.choice([0, -3, -40]))), ("adddays", ("pe",), ("c", rng.choice([0, 1]))),
+                                     g_date(rng, env, 1)])
+                elif name == "period_end":
+                    ex = rng.choice([("adddays", ("pe",), ("c", rng.choice([0, 1, 40]))), ("adddays", ("ps",), ("c", rng.choice([-1, 0, 50]))),
+                                     g_date(rng, env, 1), ("ev",)])
+                elif name == "evaluation_date":
+                    ex = rng.choice([("adddays", ("ev",), ("c", rng.choice([0, 1, 400, 4000]))), ("c", rng.choice(env.dates)),
+                                     ("adddays", ("ps",), ("c", rng.choice([-1, 0]))), g_date(rng, env, 1)]
+                                    + ([("prev",), ("adddays", ("prev",), ("c", 1))] if env.inc else []))
+                else:
+                    ex = rng.choice([("ev",), ("adddays", ("ev",), ("c", -1)), ("adddays", ("ps",), ("c", -1)),
+                                     ("c", rng.choice(env.dates)), ("c", None)] + ([("adddays", ("prev",), ("c", -1))] if env.inc else []))
+                if bad:
+                    ex = rng.choice([g_bad(rng, env), g_int(rng, env)])
+                kw[name] = _const_or_fn(rng, ex)
+                wire.append({"name": name, "e": ex_wire(ex)})
+        if bad and rng.random() < 0.3:
+            ex = g_int(rng, env)
+            kw["evaluation"] = ex_py(ex)
+            wire.append({"name": "evaluation", "e": ex_wire(ex)})
+        return {"op": k, "defs": wire}, lambda x: x.replace(**kw)
+    if k == "filterFn":
+        ex = g_bad(rng, env) if bad else rng.choice([g_bool, g_bool, g_int])(rng, env)
+        f = ex_py(ex)
+        return {"op": k, "pred": ex_wire(ex)}, lambda x: x.filter(f)
+    if k in ("union", "inter", "diff", "symdiff"):
+        o = _set_operand(t, rng)
+        f = {"union": _operator.or_, "inter": _operator.and_, "diff": _operator.sub, "symdiff": _operator.xor}[k]
+        return {"op": k, "b": w_cells(o.cells)}, lambda x: f(x, o)
+    if k == "sum":
+        os_ = [_set_operand(t, rng) for _ in range(rng.randrange(0, 3))]
+        return {"op": k, "ts": [w_cells(o.cells) for o in os_]}, lambda x: sum([x, *os_])
+    if k == "addStaticsDefault":
+        o = _operand(t, rng) if env.n else Triangle([])
+        return ({"op": "addStatics", "b": w_cells(o.cells), "statics": ["earned_premium", "earned_exposure"]},
+                lambda x: x.add_statics(o))
+    if k == "cellAt":
+        i = rng.choice([0, -1, 1, len(t), -len(t) - 1, len(t) - 1, 3, -2, -len(t), 2, -3])
+        return {"op": k, "i": i}, lambda x: x[i]
+    if k == "loosePeriodMerge":
+        u = rng.random()
+        if env.n == 0 or u < 0.1:
+            o = Triangle([])
+        elif u < 0.75:
+            o = _period_source(t, rng, loose=True)
+        elif u < 0.9:
+            o = _period_source(t, rng, loose=False)
+        else:
+            o = _set_operand(t, rng)        # several cells per period: ValueError
+        if rng.random() < 0.5 and len(o) > 1:
+            keep = [c for c in o.cells if rng.random() < 0.6]
+            o = Triangle(keep or o.cells[:1])
+        suffix = rng.choice([None, None, "_r", ""])
+        lpm = __import__("importlib").import_module("bermuda.utils.merge").loose_period_merge
+        return {"op": k, "b": w_cells(o.cells), "suffix": suffix}, lambda x: lpm(x, o, suffix=suffix)
+    import bermuda as _b
+    if k in READER_OPS:
+        if not _csv_safe(t, scalar_only=(k == "arrayRoundTrip")):
+            return make_op3(rng, t, rng.choice(["deriveFields", "filterFn", "replaceFn"]))
+        import tempfile as _tf
+        fields = sorted({f for c in t.cells for f in c.values})
+        det = sorted({kk for m in t.metadata for kk in m.details})
+        ldet = sorted({kk for m in t.metadata for kk in m.loss_details})
+        if k == "wideRoundTrip":
+            dcols = sorted(set(det) | set(ldet))
+
+            def fn(x):
+                with _tf.TemporaryDirectory(prefix="verif-c01-") as td:
+                    path = td + "/w.csv"
+                    x.to_wide_csv(path)
+                    return Triangle.from_wide_csv(path, field_cols=fields, detail_cols=dcols, loss_detail_cols=ldet)
+            return {"op": k, "field_cols": fields, "detail_cols": dcols, "loss_detail_cols": ldet}, fn
+        if k == "longRoundTrip":
+            def fn(x):
+                with _tf.TemporaryDirectory(prefix="verif-c01-") as td:
+                    path = td + "/l.csv"
+                    x.to_long_csv(path)
+                    return Triangle.from_long_csv(path)
+            return {"op": k, "loss_detail_cols": []}, fn
+        if k == "matrixRoundTrip":
+            from bermuda.io.matrix import triangle_to_matrix, matrix_to_triangle
+            return {"op": k}, lambda x: matrix_to_triangle(triangle_to_matrix(x))
+        field = rng.choice(fields)
+        md = t.metadata[0]
+        return ({"op": k, "field": field, "md": w_meta(md), "res": None},
+                lambda x: Triangle.from_array_data_frame(x.to_array_data_frame(field), field, metadata=md))
+    if k == "dropOffDiagonals":
+        if not env.aligned:
+            return make_op3(rng, t, "filterFn")
+        return {"op": k}, lambda x: _b.date_utils.drop_off_diagonals(x)
+    if k == "toSlice":
+        return {"op": k}, lambda x: _b.utils.triangle_to_slice(x)
+    if k == "sliceToTriangle":
+        return {"op": k}, lambda x: _b.utils.slice_to_triangle(x)
+    if k == "makePredTriangleWithInit":
+        if not env.aligned or env.n == 0:
+            return make_op3(rng, t, "filterFn")
+        kw, w = {}, {"op": k}
+        u = rng.random()
+        if u < 0.25:
+            p_ = _operand(t, rng) if rng.random() < 0.8 else Triangle(gen.rand_cells(rng, max_cells=4))
+            kw["pred_triangle"] = p_
+            w["pred"] = w_cells(p_.cells)
+        if u >= 0.2:
+            if rng.random() < 0.9:
+                kw["max_dev_lag"] = (rng.choice([12, 24, 36, 2, 0, -3]), rng.choice(["months", "month", "month", "years", "days"]))
+                if kw["max_dev_lag"][1] == "years":
+                    kw["max_dev_lag"] = (rng.choice([1, 2]), "years")
+                w["maxDevLag"] = list(kw["max_dev_lag"])
+            if rng.random() < 0.9:
+                kw["eval_resolution"] = (rng.choice([3, 6, 12, 1]), rng.choice(["months", "month", "quarter", "weeks"]))
+                w["evalRes"] = list(kw["eval_resolution"])
+            if rng.random() < 0.4:
+                kw["max_eval_date"] = gen.add_months_int(max(c.evaluation_date for c in t.cells), rng.choice([0, 6, 12, 30]), end=True)
+                w["maxEval"] = w_date(kw["max_eval_date"])
+        return w, lambda x: _b.utils.make_pred_triangle_with_init(x, **kw)
+    if k == "disaggDev":
+        if not env.aligned or env.inc or _has_dups(t) or env.n == 0:
+            return make_op3(rng, t, "filterFn")
+        res = rng.choice([1, 1, 3, 3, 6, 12])
+        er_ = _b.date_utils.eval_date_resolution(t)
+        if er_ and rng.random() < 0.75:
+            finer = [r_ for r_ in (1, 3, 6) if r_ < er_]
+            res = rng.choice(finer) if finer else res
+        fields = rng.choice([None, None, None, [f for f in env.fields if rng.random() < 0.7], ["nope"]])
+        extra = rng.random() < 0.6
+        w = {"op": k, "res": res, "fields": fields, "extrapolate": extra, "vals": None}
+        kw = {}
+        if fields is not None:
+            kw["fields"] = fields
+        if not extra or rng.random() < 0.5:
+            kw["extrapolate_first_period"] = extra
+
+        def fn(x, w=w):
+            import warnings as _w
+            with _w.catch_warnings():
+                _w.simplefilter("ignore")
+                r = _b.utils.disaggregate_development(x, res, **kw)
+            try:
+                w["vals"] = {f: _table(r.cells, f) for f in r.fields}
+            except (ValueError, OverflowError, common.Infra):
+                w["skip"] = True
+                return x
+            return r
+        return w, fn
+    if k == "disagg":
+        if not env.aligned or env.inc or _has_dups(t) or env.n == 0:
+            return make_op3(rng, t, "filterFn")
+        pr = _b.date_utils.period_resolution(t) or 3
+        # experience splits into 1, 2 or 4 sub-periods only (weights 1/n exact in binary)
+        re_ = rng.choice([r_ for r_ in (pr, pr // 2, pr // 4, 3) if r_ >= 1 and (pr % r_ != 0 or pr // r_ in (1, 2, 4))])
+        n_sub = pr // re_ if re_ and pr % re_ == 0 else 0
+        weights = None
+        if n_sub in (2, 4) and rng.random() < 0.4:
+            weights = {2: [[0.25, 0.75], [0.5, 0.5], [1, 0]], 4: [[0.25, 0.25, 0.25, 0.25], [0.5, 0.125, 0.125, 0.25]]}[n_sub]
+            weights = rng.choice(weights)
+        er_ = _b.date_utils.eval_date_resolution(t)
+        finer = [r_ for r_ in (1, 3, 6) if er_ and r_ < er_]
+        rd = rng.choice(finer) if finer and rng.random() < 0.7 else rng.choice([1, 3, 6, 12])
+        fields = rng.choice([None, None, [f for f in env.fields if rng.random() < 0.7]])
+        extra = rng.random() < 0.6
+        w = {"op": k, "resExp": re_, "weights": None if weights is None else [x if isinstance(x, int) else common.w_rat(x) for x in weights],
+             "res": rd, "fields": fields, "extrapolate": extra, "vals": None}
+        kw = {"resolution_exp_months": re_, "resolution_dev_months": rd}
+        if fields is not None:
+            kw["fields"] = fields
+        if weights is not None:
+            kw["period_weights"] = weights
+        if not extra or rng.random() < 0.5:
+            kw["extrapolate_first_period"] = extra
+
+        def fn(x, w=w):
+            import warnings as _w
+            with _w.catch_warnings():
+                _w.simplefilter("ignore")
+                r = _b.utils.disaggregate(x, **kw)
+            try:
+                w["vals"] = {f: _table(r.cells, f) for f in r.fields}
+            except (ValueError, OverflowError, common.Infra):
+                w["skip"] = True
+                return x
+            return r
+        return w, fn
+    if k == "weightGeometricDecay":
+        if _has_dups(t):
+            return make_op3(rng, t, "filterFn")
+        factor = rng.choice([1.0, 0.5, 0.9, 0.75, 1, 2, 1.5, 0.0])
+        basis = rng.choice(["evaluation", "evaluation", "experience", "something"])
+        fields = rng.choice([None, None, None, rng.choice(env.fields + ["nope"]),
+                             [f for f in env.fields if rng.random() < 0.6], env.fields[:1] + ["nope"]])
+        as_field = rng.random() < 0.5
+        w = {"op": k, "isFloat": isinstance(factor, float), "factor": common.w_rat(factor), "basis": basis,
+             "fields": fields, "asField": as_field, "w": None, "scaled": None}
+
+        kw = {}
+        if basis != "evaluation" or rng.random() < 0.5:
+            kw["basis"] = basis
+        if fields is not None:
+            kw["tri_fields"] = fields
+        if not as_field or rng.random() < 0.5:
+            kw["weight_as_field"] = as_field
+
+        def fn(x, w=w):
+            r = _b.utils.weight_geometric_decay(x, factor, **kw)
+            try:
+                if as_field:
+                    w["w"] = _table(r.cells, "geometric_weight")
+                else:
+                    used = x.fields if fields is None else ([fields] if isinstance(fields, str) else fields)
+                    w["scaled"] = {f: _table(r.cells, f) for f in used}
+            except (ValueError, OverflowError, common.Infra):
+                w["skip"] = True
+                return x
+            return r
+        return w, fn
+    if k == "paidBs":
+        if _has_dups(t):
+            return make_op3(rng, t, "filterFn")
+        ult = _ult_for(t, rng) if env.n else Triangle([])
+        w = {"op": k, "ult": w_cells(ult.cells), "dr": None, "pl": None}
+
+        def fn(x, w=w):
+            r = _b.utils.paid_bs_adjustment(x, ult)
+            try:
+                w["dr"], w["pl"] = _table(r.cells, "disposal_rate"), _table(r.cells, "paid_loss")
+            except (ValueError, OverflowError, common.Infra):
+                w["skip"] = True
+                return x
+            return r
+        return w, fn
+    if k == "reportedBs":
+        if _has_dups(t):
+            return make_op3(rng, t, "filterFn")
+        method = rng.choice([None, None, None, "", "all", "latest", "foo"])
+        w = {"op": k, "method": method, "first": None, "second": None, "trendOk": False}
+        trend_, explicit = rng.choice([0.0, 0.25]), (method is not None or rng.random() < 0.5)
+
+        def fn(x, w=w):
+            import warnings as _w
+            with _w.catch_warnings():
+                _w.simplefilter("ignore")
+                r = _b.utils.reported_bs_adjustment(x, trend_, sev_trend_method=method) \
+                    if explicit else _b.utils.reported_bs_adjustment(x)
+            try:
+                aps = _table(r.cells, "average_paid_severity")
+                aco = _table(r.cells, "average_case_os")
+                w["first"] = {"average_case_os": aco, "average_paid_severity": aps}
+                w["second"] = {"average_case_os": aco, "reported_loss": _table(r.cells, "reported_loss")}
+                w["trendOk"] = True
+            except (ValueError, OverflowError, common.Infra):
+                w["skip"] = True
+                return x
+            return r
+        return w, fn
+    # shiftOrigin
+    if not env.aligned:
+        return make_op3(rng, t, "filterFn")
+    src = t.cells if env.aligned and env.n else gen.rand_cells(rng, layout="regular", max_cells=8)
+    o = Triangle(_shift_cells(src, rng.choice([0, 1, 2, 5, 7])) if rng.random() < 0.85 else [])
+    return {"op": k, "b": w_cells(o.cells)}, lambda x: _b.utils.shift_origin(x, o)
+
+
 PUBLIC_OPS = [
     ("to_incremental", lambda t, r: t.to_incremental()),
     ("to_cumulative", lambda t, r: t.to_cumulative()),
@@ -563,7 +1392,137 @@ def correspondence(ctx):
                  nontrivial=len(wire_ops) > 1,
                  sample={"op": "chain2", "ops": [o["op"] for o in wire_ops], "n_cells": len(cells)} if i < 2 else None)
 
+    # (vi) chains over Op3: function arguments (expression trees), Set mixins, sum, t[i], loose_period_merge,
+    # shift_origin, mixed with the Op2 / Op operations
+    n_chain2_reqs = len(reqs)
+    chain3_cases, cellat_cases = [], []
+    n_chain3 = 1200 if ctx.thorough else 170
+    for i in range(n_chain3):
+        quarterly = rng.random() < 0.15
+        bs = (not quarterly) and rng.random() < 0.12
+        tabular = (not quarterly) and (not bs) and rng.random() < 0.16
+        coarse = (not quarterly) and (not bs) and (not tabular) and rng.random() < 0.1
+        if bs:
+            cells = _bs_cells(rng)
+        elif tabular:
+            # inside the domain of the tabular row model: no empty strings, one slice for the array frame
+            import dataclasses as _dc
+            reader = rng.choice(READER_OPS)
+            if reader == "arrayRoundTrip" and rng.random() < 0.85:
+                cells = gen.rand_cells(rng, max_cells=12, layout=rng.choice(["regular", "regular", "ragged"]), n_slices=1,
+                                       kind=rng.choice(["C", "U"]), vkind=rng.choice(["int", "float"]),
+                                       fields=["paid_loss", "reported_loss"])
+            else:
+                cells = gen.rand_cells(rng, max_cells=12, layout=rng.choice(["regular", "ragged"]),
+                                       n_slices=rng.choice([1, 1, 2, 3]), kind=rng.choice(["C", "U", "U", "I"]),
+                                       vkind=rng.choice(["int", "float", "farr"]), fields=["paid_loss", "reported_loss"])
+            cells = [c.replace(metadata=_dc.replace(c.metadata, **{a: (getattr(c.metadata, a) or None) for a in
+                                                                     ("country", "currency", "reinsurance_basis", "loss_definition")}))
+                     for c in cells]
+        elif coarse:
+            # a regular cumulative triangle at a coarse evaluation resolution: disaggregate_development really interpolates
+            rows = gen.layout_regular(rng, res=rng.choice([3, 6, 12]), n_periods=rng.randrange(1, 4), n_lags=rng.randrange(2, 5),
+                                      shape=rng.choice(["square", "triangle", "ragged"]))
+            kind, vk = rng.choice(["C", "U"]), rng.choice(["int", "float", "farr"])
+            cells = [c for m in gen.rand_metas(rng, rng.choice([1, 2])) for c in
+                     gen.cells_from_layout(rng, rows, m, kind=kind, vkind=vk, fields=["paid_loss", "reported_loss", "other"],
+                                           same_fields=rng.random() < 0.7)]
+            rng.shuffle(cells)
+        elif quarterly:
+            # a quarterly / annual single-layout triangle, possibly with a shifted origin: shift_origin applies
+            res = rng.choice([3, 12])
+            rows = gen.layout_regular(rng, res=res, n_periods=rng.randrange(1, 4), n_lags=rng.randrange(1, 4))
+            kind = rng.choice(["C", "U", "I"])
+            cells = [c for m in gen.rand_metas(rng, rng.choice([1, 2])) for c in
+                     gen.cells_from_layout(rng, rows, m, kind=kind, fields=["paid_loss", "earned_premium"])]
+            cells = _shift_cells(cells, rng.choice([0, 0, 1, 2, 4, 11]))
+            rng.shuffle(cells)
+        else:
+            cells = gen.rand_cells(rng, max_cells=14, layout=rng.choice(["regular", "regular", "ragged", "daily"]),
+                                   vkind=rng.choice(["int", "int", "float", "float", "farr"]), single_attr=rng.random() < 0.5,
+                                   fields=["paid_loss", "reported_loss", "earned_premium"])
+        st, t = call(Triangle, cells)
+        if st != "ok":
+            continue
+        wire_ops, err, inexact = [], None, False
+        for step_no in range(rng.randrange(1, 5)):
+            u = rng.random()
+            if quarterly and step_no == 0:
+                w, fn = make_op3(rng, t, "shiftOrigin")
+                st, t2 = call(fn, t)
+            elif tabular and step_no == 0:
+                w, fn = make_op3(rng, t, reader)
+                st, t2 = call(fn, t)
+            elif coarse and step_no == 0:
+                w, fn = make_op3(rng, t, rng.choice(["disaggDev", "disaggDev", "disagg"]))
+                st, t2 = call(fn, t)
+            elif bs and step_no == 0:
+                w, fn = make_op3(rng, t, rng.choice(["paidBs", "reportedBs", "weightGeometricDecay"]))
+                st, t2 = call(fn, t)
+            elif u < 0.72 or (inexact and u < 0.86):
+                w, fn = make_op3(rng, t, rng.choice(OPS3_VALUE_NEUTRAL) if inexact else None)
+                st, t2 = call(fn, t)
+            elif u < 0.86 and len(t) and Env(t).aligned:
+                # the Op2 models of the extension / aggregation operators are compared on month-aligned triangles only
+                # (float month arithmetic on day-level dates is outside exact comparison)
+                w, fn = make_op2(rng, t)
+                st, t2 = call(fn, t)
+            else:
+                op = rand_ops(rng, t.cells, 1)[0]
+                st, t2 = call(apply_op, t, op)
+                if st == "err" and op["op"] == "filterMask" and "mask" not in op:
+                    break
+                w = op_wire(op)
+            if w.pop("skip", False):
+                ctx.count(f"chain3/op={w['op']}/nan-skipped")
+                continue
+            if st == "ok" and isinstance(t2, Triangle) and u < 0.72 and rng.random() < 0.25:
+                # sequence stream: the same call on the same objects again (state carried between calls)
+                try:
+                    first = w_cells(t2.cells)
+                except common.Infra:
+                    first = None
+                rst = rng.getstate()
+                st_b, t2_b = call(fn, t)
+                rng.setstate(rst)
+                w.pop("skip", None)
+                if first is not None and (st_b != "ok" or not isinstance(t2_b, Triangle) or w_cells(t2_b.cells) != first):
+                    ctx.fail(f"operation {w['op']} gives a different result when repeated on the same triangle",
+                             {"cells": w_cells(cells), "ops": wire_ops + [w]})
+            wire_ops.append(w)
+            ctx.count(f"chain3/op={w['op']}" + ("/err" if st == "err" else ""))
+            if st == "err":
+                err = t2
+                break
+            if not isinstance(t2, Triangle):
+                err = "NotATriangle"
+                if w["op"] == "cellAt":
+                    cellat_cases.append(({"op": "cellAt", "cells": w_cells(t.cells), "i": w["i"]}, w_cell(t2)))
+                break
+            t = t2
+            inexact = inexact or _inexact(t)
+        try:
+            d = {"err": err} if err else {"ok": w_cells(t.cells)}
+        except common.Infra as e:
+            # a Triangle holding something that is no cell value / metadata value: the constructor's checks were bypassed
+            ctx.fail(f"result of an operation chain (Op3) holds an object the constructor must refuse: {e}",
+                     {"cells": w_cells(cells), "ops": wire_ops})
+            continue
+        except (TypeError, ValueError, OverflowError):
+            ctx.count("chain3/result not encodable (NaN / inf / object array)")   # outside the exact wire format
+            continue
+        reqs.append({"op": "chain3", "cells": w_cells(cells), "ops": wire_ops, "impl": d.get("ok")})
+        chain3_cases.append((d, wire_ops))
+        ctx.case(digest=json.dumps([canon(w_cells(cells)), wire_ops], sort_keys=True, default=str),
+                 nontrivial=len(wire_ops) > 1,
+                 sample={"op": "chain3", "ops": [o["op"] for o in wire_ops], "n_cells": len(cells)} if i < 2 else None)
+
+    n_chain3_reqs = len(reqs)
+    reqs += [r for r, _ in cellat_cases]
     outs_all = drv.run(reqs)
+    for (r, impl_cell), out in zip(cellat_cases, outs_all[n_chain3_reqs:]):
+        if "ok" not in out["model"] or canon_cell(out["model"]["ok"]) != canon_cell(impl_cell):
+            ctx.disagree("t[i] (integer index)", {"cells": r["cells"], "i": r["i"]}, out["model"], impl_cell)
     outs = outs_all[:n_model_reqs]
     for (names, wc), out in zip(spec_cases, outs_all[n_model_reqs:]):
         spec = out["spec"]
@@ -601,7 +1560,7 @@ def correspondence(ctx):
         if not same:
             ctx.disagree("operation chain result", {"cells": req["cells"], "ops": wire_ops}, model, d)
 
-    for (d, wire_ops), req, out in zip(chain2_cases, reqs[n_spec_reqs:], outs_all[n_spec_reqs:]):
+    for (d, wire_ops), req, out in zip(chain2_cases, reqs[n_spec_reqs:n_chain2_reqs], outs_all[n_spec_reqs:n_chain2_reqs]):
         model, spec = out["model"], out["spec"]
         if spec is not None and not all(spec.values()):
             ctx.fail(f"result of an operation chain (all modelled operations) is not canonical {spec}",
@@ -615,6 +1574,22 @@ def correspondence(ctx):
             ctx.disagree("operation chain result (all modelled operations)",
                          {"cells": req["cells"], "ops": wire_ops}, model, d)
 
+    for (d, wire_ops), req, out in zip(chain3_cases, reqs[n_chain2_reqs:n_chain3_reqs], outs_all[n_chain2_reqs:n_chain3_reqs]):
+        model, spec = out["model"], out["spec"]
+        if spec is not None and not all(spec.values()):
+            ctx.fail(f"result of an operation chain (Op3: function arguments, set operations, ...) is not canonical {spec}",
+                     {"cells": req["cells"], "ops": wire_ops}, {"impl": d})
+        if model.get("err") == "Other" and "ok" in d:
+            ctx.count("chain3/outside-model")           # a documented bound of one of the models
+            continue
+        # the readers return 0-d arrays / floats for what was an int or a scalar: after one of them compare numbers,
+        # not Python kinds (kind tracking of 0-d arrays through later operations is outside the models)
+        cf = numcanon if any(o["op"] in READER_OPS for o in wire_ops) else canon
+        same = (("err" in model) == ("err" in d)) and (
+            True if "err" in d else cf(model["ok"]) == cf(d["ok"]))
+        if not same:
+            ctx.disagree("operation chain result (Op3)", {"cells": req["cells"], "ops": wire_ops}, model, d)
+
 
 if __name__ == "__main__":
     common.run_check(
@@ -626,7 +1601,14 @@ if __name__ == "__main__":
              "operation chains of length 1-6 over the ten basic operations; chains of length 1-4 over ALL modelled "
              "operations (Op2: + to_incremental/to_cumulative, aggregate, summarize, merge, coalesce, add_statics, "
              "period_merge, make_right_triangle/diagonal, fill_forward_gaps, backfill, clip with lag bounds, split, "
-             "slices) on month-aligned int/float triangles, operands derived from the current triangle. "
+             "slices) on month-aligned int/float triangles, operands derived from the current triangle; chains of length "
+             "1-4 over Op3 (Model/AllOps2.lean): derive_fields / derive_metadata / replace / filter with FUNCTION "
+             "arguments given as random typed expression trees (compiled to Python lambdas for the implementation, "
+             "evaluated by Fn.Ex.eval in the model; a share ill-typed or failing), Set mixins | & - ^, sum, t[i], "
+             "loose_period_merge, shift_origin (quarterly/annual triangles with shifted origins), "
+             "weight_geometric_decay / paid_bs_adjustment / reported_bs_adjustment (numbers taken from the "
+             "implementation, structure modelled), wide/long CSV, array-frame and matrix round trips (inside the "
+             "domain of the tabular row model), mixed with the Op2 operations. "
              "distinct = distinct canonical input dump; non-trivial = more than one cell",
         assumptions=["detail values under one key are mutually comparable (Python raises TypeError otherwise)",
                      "NaN-free values and limits", "Timsort is a stable sort (result of a stable sort by a total preorder is unique)"],
